@@ -185,6 +185,8 @@ def cons_set(name, n, form="nlc"):
 def base_case(n, pats, where="in", obj="quad", cons="none", form="nlc",
               bform="Bounds", options=None, nan=None, callback=None,
               constants=None):
+    if len(pats) != n:
+        raise ValueError(f"harness: {len(pats)} bound patterns for n={n}")
     case = {
         "n": n,
         "obj": objective(obj, n, nan_region(nan, n) if nan else None),
